@@ -557,6 +557,65 @@ def line_length_options(ctx):
     ctx.count(states=len(res), transitions=len(res) + n, validated=len(res) + n)
 
 
+LONGARG = "a_rather_long_argument_name_of_forty_five_ch"
+
+
+def long_atom_case(args):
+    workdir, lang, cfi, skip = args
+    from .. import atoms as A, gen
+    from .c01 import l1_funcs
+    fs = []
+    for f in l1_funcs(2):
+        if lang not in f.langs() or f.defaults or f.template or f.generic or f.name in skip:
+            continue
+        # the same function with its (first) argument under a long name, and itself under a long name
+        g = A.Func(f.name + "_with_a_long_function_name", f.res, [(a, LONGARG if i == 0 else n) for i, (a, n) in enumerate(f.args)])
+        fs.append(g)
+    lib = A.Library("Lname", fs, lang)
+    r, tree = gen.gen_tree(workdir, lib.yaml({"wrap_python": False, "wrap_lua": False, "F_CFI": cfi}))
+    if r.status != "ok":
+        return (lang, cfi, "generation failed: %s %s" % (r.exc, (r.msg or "")[:300]), 0, 0)
+    bad = []
+    nl = 0
+    for fn, data in sorted(tree.items()):
+        if not fn.endswith(".f"):
+            continue
+        text = data.decode()
+        for no, ln in enumerate(text.split("\n"), 1):
+            nl += 1
+            if ln.lstrip().startswith("!") or ln.startswith("#"):
+                continue
+            if len(ln) > 132:
+                bad.append("%s line %d has %d columns: %s" % (fn, no, len(ln), ln.strip()[:150]))
+            if "\t" in ln or "\f" in ln or "\r" in ln:
+                bad.append("%s line %d contains a layout directive character: %r" % (fn, no, ln[:120]))
+        for no, raw in orphan_lines(text)[:2]:
+            bad.append("%s line %d starts in the middle of a statement without a continuation marker before it: %r" % (fn, no, raw))
+    return (lang, cfi, bad, len(fs), nl)
+
+
+def long_atom_names(ctx):
+    """Every argument and result kind of the atom table under a 30-character argument name and a long function name: each
+    statement the Fortran wrapper emits for it stays within 132 columns (break points where it needs them)."""
+    wd = ctx.subdir("longatoms")
+    from .c01 import l1_funcs, known_unbuildable, atom_sig
+    # shapes recorded (under C05) as not generating or not compiling in a configuration are left out of that configuration
+    jobs = [(os.path.join(wd, "%s-%d" % (lang, cfi)), lang, cfi,
+             [f.name for f in l1_funcs(2) if known_unbuildable(ctx, atom_sig(f), lang, "c+f", int(cfi))]) for lang in ("c", "cxx") for cfi in (False, True)]
+    res = isolate.pmap(long_atom_case, jobs, ctx.workers)
+    nf = nl = 0
+    for lang, cfi, bad, n, lines in res:
+        nf += n
+        nl += lines
+        if isinstance(bad, str):
+            ctx.violation("long-names generation %s cfi=%d" % (lang, cfi), "atom library with long names (%s, F_CFI=%s): %s" % (lang, cfi, bad), {"kind": "longatoms", "lang": lang, "cfi": cfi})
+            continue
+        for b in bad[:3]:
+            ctx.violation("long-names fortran %s cfi=%d %s" % (lang, cfi, b.split(":")[0]), "atom library with long names (%s, F_CFI=%s): %s" % (lang, cfi, b), {"kind": "longatoms", "lang": lang, "cfi": cfi})
+    ctx.part("long_names_atom_table", functions=nf, lines=nl, argument_name=LONGARG)
+    ctx.count(states=nf, transitions=nl, validated=nl)
+
+
 def run(ctx):
     quick = ctx.tier == "quick"
     W = ctx.workers
@@ -618,6 +677,7 @@ def run(ctx):
     # --- generated Fortran files
     fortran_line_limit(ctx)
     line_length_options(ctx)
+    long_atom_names(ctx)
     ctx.cov["rule"] = (
         "every logical line over {letter, blank, TAB, FF} (+ leading CR) up to the length bound x every "
         "line length x indent x marker, executed on the real write_continue; every directive line (sequence) "
